@@ -263,8 +263,10 @@ pub fn run_guarded(prop: &dyn Prop, case: &Value) -> Outcome {
 fn run_repeated(prop: &dyn Prop, case: &Value, repeats: u32) -> Outcome {
     let mut last = Outcome::new();
     for _ in 0..repeats.max(1) {
+        crate::tracelog::clear();
         last = run_guarded(prop, case);
         if last.failed() {
+            crate::tracelog::dump();
             return last;
         }
     }
